@@ -118,7 +118,11 @@ def _valid_angles(al, be, ga):
 
 def gen_cell(rng, kind):
     """-> (style, [a,b,c,alpha,beta,gamma]) conforming to the crystal system"""
+    long_axis = rng.chance(0.12)
+
     def L():
+        if long_axis and rng.chance(0.5):
+            return round(rng.uniform(12.0, 40.0), rng.choice([1, 2]))
         return round(rng.uniform(2.6, 9.5), rng.choice([1, 2, 4]))
     if kind == "triclinic":
         style = rng.weighted([("generic", 4), ("orthometric", 2), ("oblique", 3), ("nearspecial", 1)])
@@ -281,7 +285,8 @@ def generate(rng, tier, index):
                 del op["restore_of"]
     cfg = {"sgno": no, "cell_choice": cc, "cell": [core.fhex(x) for x in cell], "cell_style": style,
            "smin": core.fhex(smin), "smax": core.fhex(smax), "fault_free": fault_free, "fault_kinds": kinds,
-           "pair": bool(no in R_GROUPS and rng.chance(0.6)), "session_seed": rng.bits(32)}
+           "pair": bool(no in R_GROUPS and rng.chance(0.6)), "session_seed": rng.bits(32),
+           "cell_container": rng.choice(["list", "list", "ndarray"])}
     return {"property": "C05", "config": cfg, "ops": ops}
 
 
@@ -438,8 +443,11 @@ def execute(trace):
                     if p in truth:
                         base |= orbits[member[p]]
             Gs = O.recip_metric(cell)
+            cont = cfg.get("cell_container", "list")
+            # one cell object for the whole session, as a client would hold it
+            session_cell = tuple(cell) if cont == "tuple" else (np.array(cell, dtype=float) if cont == "ndarray" else list(cell))
 
-            def call(op, sgno_=no, cc_=cc, cell_=cell):
+            def call(op, sgno_=no, cc_=cc, cell_=None):
                 fn = getattr(mods[op["module"]], op["fn"])
                 md = op["mode"]
                 kw = {"output_stl": bool(op["output_stl"])}
@@ -453,7 +461,7 @@ def execute(trace):
                 seam.begin(op.get("rng"))
                 try:
                     try:
-                        out = fn(list(cell_), smin, smax, **kw)
+                        out = fn(session_cell if cell_ is None else list(cell_), smin, smax, **kw)
                         exc = None
                     except Exception as e:  # noqa
                         out, exc = None, "%s: %s" % (type(e).__name__, str(e)[:80])
@@ -570,6 +578,8 @@ def execute(trace):
                             viols.append(_viol(["C06"], "unique: Laue family missing", site, _fmt([min(orbits[i]) for i in lost])))
                     if uniq_rows is None:
                         uniq_rows = (site, rows)
+            if [float(x) for x in session_cell] != [float(x) for x in cell]:
+                count("probe.cell_argument_mutated")
             # C06 union clause and C05 schedule independence
             if uniq_rows is not None:
                 union = set()
